@@ -83,6 +83,9 @@ def gen_c17(r, tier):
     fmt = r.weighted([(6, 'csv'), (4, 'parquet')])
     inp = 'data.' + fmt
     ops = [{'op': 'write_table', 'client': 'U', 'frame': 0, 'path': inp}]
+    if r.chance(0.2):
+        # the input file is a symlink into another directory
+        ops[0]['via_symlink'] = True
     n = r.randint(1, 4)
     have_tdda = False
     for _ in range(n):
@@ -112,6 +115,11 @@ def gen_c17(r, tier):
                 ops.append({'op': 'cli', 'client': 'C', 'cmd': 'verify',
                             'argv': ['verify', inp, cs] + gen_verify_flags(r),
                             'input': inp, 'cs': cs, 'discovered': True})
+                if cs == 'data.tdda' and r.chance(0.4):
+                    # constraints file left implicit: <input stem>.tdda
+                    # next to the input as named
+                    ops[-1]['argv'].remove(cs)
+                    ops[-1]['implicit_cs'] = True
             else:
                 ops.append({'op': 'write_cs', 'client': 'U',
                             'path': 'hand.tdda',
@@ -120,7 +128,8 @@ def gen_c17(r, tier):
                             'argv': ['verify', inp, 'hand.tdda']
                             + gen_verify_flags(r),
                             'input': inp, 'cs': 'hand.tdda'})
-            if fmt == 'csv' and r.chance(0.3):
+            if fmt == 'csv' and r.chance(0.3) and \
+                    not ops[-1].get('implicit_cs'):
                 # the table arrives on standard input
                 a = ops[-1]['argv']
                 a[1] = '-'
@@ -279,6 +288,12 @@ def gen_fault(r, spec, inp):
 def op_write_table(ctx, op):
     df = ctx.frames[op['frame']]
     p = ctx.W.path('cwd', op['path'])
+    if op.get('via_symlink'):
+        os.makedirs(ctx.W.path('cwd', 'store'), exist_ok=True)
+        real = ctx.W.path('cwd', 'store', 'real_' + op['path'])
+        os.symlink(os.path.join('store', 'real_' + op['path']), p)
+        ctx.stats['probes']['input_file_is_a_symlink'] += 1
+        p = real
     if p.endswith('.parquet'):
         df.to_parquet(p, index=False)
     else:
